@@ -55,7 +55,10 @@ func worldC12(w *World) {
 		c := &shimCall{}
 		c.Kind = []string{"data", "close", "poll", "data", "close"}[t.Choice(5, "kind")]
 		c.Sess = t.Choice(nSess, "sess")
-		c.Arg = []string{"valid", "valid", "valid", "unknown", "malformed", "empty"}[t.Choice(6, "arg")]
+		c.Arg = []string{"valid", "valid", "valid", "unknown", "malformed", "empty", "oddmsg"}[t.Choice(7, "arg")]
+		if c.Arg == "oddmsg" && c.Kind != "data" {
+			c.Arg = "valid"
+		}
 		// many calls at the same instant, some later
 		c.At = []time.Duration{0, 0, 0, time.Millisecond, 50 * time.Millisecond, 2 * time.Second, 25 * time.Second}[t.Choice(7, "at")]
 		calls = append(calls, c)
@@ -123,6 +126,11 @@ func worldC12(w *World) {
 						body = []byte(`{"id": "` + id + `", "msg": `)
 					} else if c.Arg == "empty" {
 						body = nil
+					} else if c.Arg == "oddmsg" {
+						// well-formed JSON for a live session whose message is not a string
+						// or a one-element array of a string
+						odd := []string{`[123]`, `[null]`, `[{"a":1}]`, `[["x"]]`, `17`, `null`, `{"k":"v"}`, `["a","b"]`, `[]`, `true`, `[1.5e300]`}
+						body = []byte(`[{"id":"` + id + `","msg":` + odd[(int(c.At/time.Millisecond)+c.Sess+len(id))%len(odd)] + `},{"id":"` + id + `","msg":` + odd[(int(c.At/time.Millisecond)+3*c.Sess+7)%len(odd)] + `}]`)
 					}
 				default:
 					body, _ = json.Marshal(map[string]string{"id": id})
@@ -230,6 +238,9 @@ func worldC12(w *World) {
 			}
 			if c.At == 0 {
 				sameInstant++
+			}
+			if c.Arg == "oddmsg" {
+				w.Probe("odd_message_types")
 			}
 		}
 		if sameInstant >= 2 {
